@@ -86,6 +86,12 @@ def load_family(repo: Repo, family: str) -> List[Entry]:
         found = repo.lookup(f"{mod.name}.handlers")
         if found and found[0] == "const":
             mod, node = found[1], found[2]
+    if isinstance(node, ast.Call) and isinstance(node.func, ast.Name) and node.func.id == "dict" and not node.args \
+            and all(k.arg for k in node.keywords):
+        # dict(NAME=f, ...) is {'NAME': f, ...}
+        lit = ast.Dict(keys=[ast.copy_location(ast.Constant(k.arg), k.value) for k in node.keywords],
+                       values=[k.value for k in node.keywords])
+        node = ast.copy_location(lit, node)
     if node is None or not isinstance(node, ast.Dict):
         raise AnalysisError(f"anchor vanished: {mod.name}.handlers is not a dict literal")
     out = []
